@@ -9,6 +9,8 @@ import FxVerif.Proofs.C14Inv
 import FxVerif.Proofs.C14InvQ
 import FxVerif.Proofs.C14InvS
 import FxVerif.Proofs.C14InvI
+import FxVerif.Proofs.C14InvG
+import FxVerif.Proofs.C14InvK
 /-!
 # C14 — account migration moves everything, once, to the address that authorised it
 
@@ -108,6 +110,155 @@ theorem migrate_ok_not_blocked {s s' : State} {frm to : Addr} {sigOk : Bool} (h 
   repeat (split at h; · cases h)
   rename_i hb
   simpa using hb
+
+/-! ## the message server: regenerated program = hand-written reading -/
+
+/-- the statement list of `MigrateAccount` and the handlers registered in the app wiring, as read from the source -/
+theorem handler_lists_from_code :
+    Gen.C14.handlerOrder = ["check-record-from", "check-record-to", "check-from-account", "validate-all",
+                            "execute-all", "set-record"] ∧
+    Gen.C14.migrateHandlers = ["NewBankMigrate", "NewDistrStakingMigrate", "NewGovMigrate"] := by decide
+
+/-- **`DistrStakingMigrate.Validate` as regenerated check list = the hand-written reading**: the five checks in source
+order, first refusal wins, give `stakingValidate` for every state and pair -/
+theorem staking_validate_program_as_modelled (s : State) (frm to : Addr) :
+    stakingValidateP Gen.C14.stakingValidateProgram s frm to = stakingValidate cfg s frm to := by
+  have hp : Gen.C14.stakingValidateProgram =
+      ["validator-from", "validator-to", "delegations-to", "unbonding-to", "redelegations-to"] := by decide
+  rw [hp]
+  have c1 : cfg.checkOperator = true := by rw [cfg_from_code]
+  have c2 : cfg.checkTarget = true := by rw [cfg_from_code]
+  have e1 : stakingCheck s frm to "validator-from" = (if s.vals.contains frm then some .validator else none) := by
+    simp only [stakingCheck, beq_self_eq_true, ↓reduceIte]
+  have e2 : stakingCheck s frm to "validator-to" = (if s.vals.contains to then some .validator else none) := by
+    have q1 : ("validator-to" == "validator-from") = false := by decide
+    simp only [stakingCheck, q1, beq_self_eq_true, Bool.false_eq_true, ↓reduceIte]
+  have e3 : stakingCheck s frm to "delegations-to" = (if s.dels.any (fun p => p.1.1 == to) then some .toStaking else none) := by
+    have q2 : ("delegations-to" == "validator-from") = false := by decide
+    have q3 : ("delegations-to" == "validator-to") = false := by decide
+    simp only [stakingCheck, q2, q3, beq_self_eq_true, Bool.false_eq_true, ↓reduceIte]
+  have e4 : stakingCheck s frm to "unbonding-to" = (if s.ubds.any (fun p => p.1.1 == to) then some .toStaking else none) := by
+    have q4 : ("unbonding-to" == "validator-from") = false := by decide
+    have q5 : ("unbonding-to" == "validator-to") = false := by decide
+    have q6 : ("unbonding-to" == "delegations-to") = false := by decide
+    simp only [stakingCheck, q4, q5, q6, beq_self_eq_true, Bool.false_eq_true, ↓reduceIte]
+  have e5 : stakingCheck s frm to "redelegations-to" = (if s.reds.any (fun p => p.1.1 == to) then some .toStaking else none) := by
+    have q7 : ("redelegations-to" == "validator-from") = false := by decide
+    have q8 : ("redelegations-to" == "validator-to") = false := by decide
+    have q9 : ("redelegations-to" == "delegations-to") = false := by decide
+    have q10 : ("redelegations-to" == "unbonding-to") = false := by decide
+    simp only [stakingCheck, q7, q8, q9, q10, beq_self_eq_true, Bool.false_eq_true, ↓reduceIte]
+  unfold stakingValidateP stakingValidate
+  rw [c1, c2]
+  simp only [List.findSome?_cons, List.findSome?_nil, e1, e2, e3, e4, e5, Bool.true_and]
+  by_cases h1 : frm ∈ s.vals
+  · simp [h1]
+  by_cases h2 : to ∈ s.vals
+  · simp [h1, h2]
+  by_cases h3 : s.dels.any (fun p => p.1.1 == to) = true
+  · simp [h1, h2, h3]
+  by_cases h4 : s.ubds.any (fun p => p.1.1 == to) = true
+  · simp [h1, h2, h3, h4]
+  by_cases h5 : s.reds.any (fun p => p.1.1 == to) = true
+  · simp [h1, h2, h3, h4, h5]
+  · simp [h1, h2, h3, h4, h5]
+
+theorem handlerValidate_code (s : State) (frm to : Addr) :
+    handlerValidate cfg s frm to "NewBankMigrate" = none ∧
+    handlerValidate cfg s frm to "NewDistrStakingMigrate" = stakingValidate cfg s frm to ∧
+    handlerValidate cfg s frm to "NewGovMigrate" = (if govRefuses cfg s frm to then some .gov else none) := by
+  have t1 : handlerType "NewBankMigrate" = "BankMigrate" := by decide
+  have t2 : handlerType "NewDistrStakingMigrate" = "DistrStakingMigrate" := by decide
+  have t3 : handlerType "NewGovMigrate" = "GovMigrate" := by decide
+  have b1 : bodyNil ("BankMigrate" ++ ".Validate") = true := by decide
+  have b2 : bodyNil ("DistrStakingMigrate" ++ ".Validate") = false := by decide
+  have b3 : bodyNil ("GovMigrate" ++ ".Validate") = false := by decide
+  refine ⟨?_, ?_, ?_⟩
+  · simp only [handlerValidate, t1, b1, ↓reduceIte]
+  · simp only [handlerValidate, t2, b2, Bool.false_eq_true, ↓reduceIte, beq_self_eq_true]
+    exact staking_validate_program_as_modelled s frm to
+  · simp only [handlerValidate, t3, b3, Bool.false_eq_true, ↓reduceIte, beq_self_eq_true]
+    rfl
+
+
+theorem handlerExecute_code (c : Cfg) (s : State) (frm to : Addr) :
+    handlerExecute c frm to s "NewBankMigrate" =
+      (if bankBlocked c s frm then .error .exec else .ok (bankExecute c s frm to)) ∧
+    handlerExecute c frm to s "NewDistrStakingMigrate" = .ok (stakingExecute c s frm to) ∧
+    handlerExecute c frm to s "NewGovMigrate" = .ok s := by
+  have t1 : handlerType "NewBankMigrate" = "BankMigrate" := by decide
+  have t2 : handlerType "NewDistrStakingMigrate" = "DistrStakingMigrate" := by decide
+  have t3 : handlerType "NewGovMigrate" = "GovMigrate" := by decide
+  have b1 : bodyNil ("BankMigrate" ++ ".Execute") = false := by decide
+  have b2 : bodyNil ("DistrStakingMigrate" ++ ".Execute") = false := by decide
+  have b3 : bodyNil ("GovMigrate" ++ ".Execute") = true := by decide
+  have n1 : ("DistrStakingMigrate" == "BankMigrate") = false := by decide
+  refine ⟨?_, ?_, ?_⟩
+  · simp only [handlerExecute, t1, b1, Bool.false_eq_true, ↓reduceIte, beq_self_eq_true]
+  · simp only [handlerExecute, t2, b2, n1, Bool.false_eq_true, ↓reduceIte, beq_self_eq_true]
+  · simp only [handlerExecute, t3, b3, ↓reduceIte]
+
+/-- **the message server as regenerated program = the hand-written reading**: interpreting the statement list of
+`Keeper.MigrateAccount` over the handlers registered in the app wiring (both regenerated from the source on every run)
+gives, for every state, pair and signature verdict, exactly `migrate` — the function all theorems of this file are
+about.  The driver runs the interpretation; if a statement is moved, dropped or added, or a handler is unregistered or
+its `Validate` / `Execute` becomes / stops being a bare `return nil`, this stops checking while the driver follows the
+code. -/
+theorem handler_program_as_modelled (s : State) (frm to : Addr) (sigOk : Bool) :
+    migrateProg cfg Gen.C14.handlerOrder Gen.C14.migrateHandlers s frm to sigOk = migrate cfg s frm to sigOk := by
+  rw [handler_lists_from_code.1, handler_lists_from_code.2]
+  unfold migrateProg migrate
+  split
+  · rfl
+  split
+  · rfl
+  have q1 : ("check-record-to" == "check-record-from") = false := by decide
+  have q2 : ("check-from-account" == "check-record-from") = false := by decide
+  have q3 : ("check-from-account" == "check-record-to") = false := by decide
+  have q4 : ("validate-all" == "check-record-from") = false := by decide
+  have q5 : ("validate-all" == "check-record-to") = false := by decide
+  have q6 : ("validate-all" == "check-from-account") = false := by decide
+  have q7 : ("execute-all" == "check-record-from") = false := by decide
+  have q8 : ("execute-all" == "check-record-to") = false := by decide
+  have q9 : ("execute-all" == "check-from-account") = false := by decide
+  have q10 : ("execute-all" == "validate-all") = false := by decide
+  have q11 : ("set-record" == "check-record-from") = false := by decide
+  have q12 : ("set-record" == "check-record-to") = false := by decide
+  have q13 : ("set-record" == "check-from-account") = false := by decide
+  have q14 : ("set-record" == "validate-all") = false := by decide
+  have q15 : ("set-record" == "execute-all") = false := by decide
+  simp only [runStmts, handlerStmt, q1, q2, q3, q4, q5, q6, q7, q8, q9, q10, q11, q12, q13, q14, q15,
+    beq_self_eq_true, Bool.false_eq_true, ↓reduceIte, List.findSome?, execAll,
+    (handlerValidate_code _ frm to).1, (handlerValidate_code _ frm to).2.1, (handlerValidate_code _ frm to).2.2,
+    (handlerExecute_code cfg _ frm to).1, (handlerExecute_code cfg _ frm to).2.1, (handlerExecute_code cfg _ frm to).2.2]
+  by_cases h1 : recGuard cfg.recKeyFrom s frm = true
+  · simp [h1]
+  by_cases h2 : recGuard cfg.recKeyTo s to = true
+  · simp [h1, h2]
+  by_cases h3 : frm ∈ s.hasKey
+  · cases hv : stakingValidate cfg s frm to with
+    | some e => simp [h1, h2, h3, hv]
+    | none =>
+      by_cases h4 : govRefuses cfg s frm to = true
+      · simp [h1, h2, h3, hv, h4]
+      · by_cases h5 : bankBlocked cfg s frm = true
+        · simp [h1, h2, h3, hv, h4, h5]
+        · simp [h1, h2, h3, hv, h4, h5]
+  · simp [h1, h2, h3]
+
+/-- the step function the driver runs is `step` -/
+theorem stepP_eq_step (s : State) (op : Op) :
+    stepP cfg Gen.C14.handlerOrder Gen.C14.migrateHandlers s op = step cfg s op := by
+  cases op <;> try rfl
+  simp only [stepP, step, handler_program_as_modelled]
+
+/-- and the spelled message the driver runs is `migrateMsg` -/
+theorem migrateMsgP_eq {H S : Type} (hash : List Nat → H) (recover : H → S → Option Addr) (pfx : List Nat)
+    (enc : Addr → List Nat) (s : State) (frm : Addr) (w : Spelling) (sig : S) :
+    migrateMsgP hash recover pfx enc cfg Gen.C14.handlerOrder Gen.C14.migrateHandlers s frm w sig =
+      migrateMsg hash recover pfx enc cfg s frm w sig := by
+  unfold migrateMsgP migrateMsg
+  split <;> simp only [handler_program_as_modelled]
 
 /-- **needs_target_signature**: an accepted migration carries a signature from which the (opaque) recovery function,
 applied to the (opaque) hash of prefix ++ source ++ target, yields exactly the target address -/
@@ -1265,6 +1416,201 @@ theorem refused_while_in_open_proposal (s : State) (frm to a : Addr) (sigOk : Bo
     · rcases ha with rfl | rfl <;> simp [hv]
 
 
+/-! ## the gov invariant of every history: no deposit or vote outlives its proposal's queue entry -/
+
+/-- every operation keeps: an open proposal sits in the queue of its period, every deposit belongs to a queued proposal
+and every vote to a proposal in the active queue -/
+theorem govInv_step {s : State} (h : GovInv s) (op : Op) : GovInv (step cfg s op).1 := by
+  have keep : ∀ (o : Option State), (∀ s', o = some s' → GovInv s') → GovInv (ofOpt s o).1 := by
+    intro o ho
+    cases o with
+    | none => exact h
+    | some s' => exact ho s' rfl
+  cases op with
+  | send x y d n =>
+    simp only [step]
+    apply keep
+    intro s' hs
+    cases hb : sendUnlocked s.bal (lockedOf s x d) x y d n <;> simp [hb] at hs
+    subst hs; exact govInv_of_govOf h rfl
+  | mint x d n => exact govInv_of_govOf h rfl
+  | delegate d v amt rw => exact keep _ (fun s' hs => govInv_of_govOf h (delegate_gov hs))
+  | undelegate d v amt rw => exact keep _ (fun s' hs => govInv_of_govOf h (undelegate_gov hs))
+  | redelegate d x y amt r1 r2 => exact keep _ (fun s' hs => govInv_of_govOf h (redelegate_gov hs))
+  | withdraw d v rw => exact keep _ (fun s' hs => govInv_of_govOf h (withdraw_gov hs))
+  | setWithdraw d w => exact govInv_of_govOf h rfl
+  | submit x dep => exact keep _ (fun s' hs => govInv_submit h hs)
+  | deposit x id amt => exact keep _ (fun s' hs => govInv_deposit h hs)
+  | vote x id => exact keep _ (fun s' hs => govInv_vote h hs)
+  | block dt => exact govInv_endBlock h dt
+  | setPeriods dp vp => exact govInv_of_govOf h rfl
+  | setUnbond n => exact govInv_of_govOf h rfl
+  | migrate f t sg =>
+    simp only [step]
+    cases hm : migrate cfg s f t sg with
+    | error e => exact h
+    | ok s' =>
+      obtain ⟨_, _, _, _, _, _, _, rfl⟩ := migrate_ok_inv hm
+      exact govInv_of_govOf h (migrated_gov cfg s f t)
+
+/-- **invariant of every history**: from a state in which the gov bookkeeping is consistent (for instance one without
+proposals, deposits and votes), after ANY list of operations — submissions, deposits, votes, blocks whose end blocker
+drops, refunds and closes proposals, parameter changes, migrations — it still is -/
+theorem govInv_run {s : State} (h : GovInv s) (ops : List Op) : GovInv (run cfg s ops) := by
+  induction ops generalizing s with
+  | nil => exact h
+  | cons op ops ih => exact ih (govInv_step h op)
+
+/-- **an accepted migration finds no deposit and no vote of source or target anywhere in the store** — not only none
+of a proposal that is still open: in every state reachable by any history from a state with consistent gov bookkeeping,
+when the migration is accepted, no deposit record and no vote record names the source or the target (the gov end blocker
+refunds the deposits and drops the votes of a proposal exactly when it takes it out of its queue, and the migration's
+scan walks both queues completely) -/
+theorem no_deposit_or_vote_of_migrated {s0 : State} (hg : GovInv s0) (before : List Op) {s' : State} {frm to : Addr}
+    {sigOk : Bool} (h : migrate cfg (run cfg s0 before) frm to sigOk = .ok s') :
+    (∀ p ∈ (run cfg s0 before).deposits, p.1.2 ≠ frm ∧ p.1.2 ≠ to) ∧
+    (∀ p ∈ (run cfg s0 before).votes, p.2 ≠ frm ∧ p.2 ≠ to) ∧
+    (∀ p ∈ s'.deposits, p.1.2 ≠ frm ∧ p.1.2 ≠ to) ∧ (∀ p ∈ s'.votes, p.2 ≠ frm ∧ p.2 ≠ to) := by
+  have h6 := (migrate_ok_inv h).2.2.2.2.2.2.1
+  have hc := gov_clear_of_scan cfg (by rw [cfg_from_code]) (by rw [cfg_from_code]) (by rw [cfg_from_code])
+    (by rw [cfg_from_code]) (by rw [cfg_from_code]) (by rw [cfg_from_code]) (govInv_run hg before) frm to h6
+  obtain ⟨_, _, _, _, _, _, _, rfl⟩ := migrate_ok_inv h
+  have e := migrated_gov cfg (run cfg s0 before) frm to
+  simp only [govOf, Prod.mk.injEq] at e
+  refine ⟨hc.1, hc.2, ?_, ?_⟩
+  · show ∀ p ∈ (moved (run cfg s0 before) frm to).deposits, _
+    unfold moved; rw [e.2.1]; exact hc.1
+  · show ∀ p ∈ (moved (run cfg s0 before) frm to).votes, _
+    unfold moved; rw [e.2.2.1]; exact hc.2
+
+/-- **refused while involved in a proposal whose status is open**: in every reachable state, if the source or the
+target is proposer, depositor or voter of a proposal whose stored status is deposit period (0) or voting period (1) —
+whatever the queues look like: the invariant puts it in its queue — the migration is rejected; and so it is whenever ANY
+deposit or vote record of source or target exists -/
+theorem refused_while_proposal_status_open {s0 : State} (hg : GovInv s0) (before : List Op) (frm to a : Addr)
+    (sigOk : Bool) (ha : a = frm ∨ a = to) (id : Nat)
+    (hopen : (∃ pr, get (run cfg s0 before).props id = some pr ∧ (pr.status = 0 ∨ pr.status = 1) ∧ pr.proposer = a) ∨
+             (get (run cfg s0 before).deposits (id, a)).isSome = true ∨ (id, a) ∈ (run cfg s0 before).votes) :
+    ∀ s', migrate cfg (run cfg s0 before) frm to sigOk ≠ .ok s' := by
+  intro s' h
+  have gi := govInv_run hg before
+  have hc := no_deposit_or_vote_of_migrated hg before h
+  rcases hopen with ⟨pr, hp, hst, hpa⟩ | hd | hv
+  · rcases hst with h0 | h1
+    · exact refused_while_in_open_proposal _ frm to a sigOk id pr.depEnd ha
+        (Or.inl ⟨gi.open0 id pr hp h0, Or.inl ⟨pr, hp, hpa⟩⟩) s' h
+    · exact refused_while_in_open_proposal _ frm to a sigOk id pr.voteEnd ha
+        (Or.inr ⟨gi.open1 id pr hp h1, Or.inl (Or.inl ⟨pr, hp, hpa⟩)⟩) s' h
+  · cases hgd : get (run cfg s0 before).deposits (id, a) with
+    | none => rw [hgd] at hd; cases hd
+    | some n =>
+      have hm := get_some_mem _ _ _ hgd
+      have := hc.1 _ hm
+      rcases ha with rfl | rfl
+      · exact this.1 rfl
+      · exact this.2 rfl
+  · have := hc.2.1 _ hv
+    rcases ha with rfl | rfl
+    · exact this.1 rfl
+    · exact this.2 rfl
+
+/-- what remains of `MigEnv` once the gov invariant is known: neither address is a module pool, and no
+delegator-withdraw-address setting or vesting schedule mentions the source or the target -/
+structure MigEnvNoGov (s : State) (frm to : Addr) : Prop where
+  modFix : ModFix frm to
+  wd_frm : get s.wdAddr frm = none
+  wd_to : get s.wdAddr to = none
+  wd_val : ∀ a w, get s.wdAddr a = some w → w ≠ frm ∧ w ≠ to
+  vest_frm : get s.vest frm = none
+  vest_to : get s.vest to = none
+
+/-- **later_behaviour_equal for every reachable state, without any assumption about deposits and votes**: as
+`later_behaviour_equal_reachable`, with the deposit / vote part of `MigEnv` PROVED from the gov invariant of every
+history instead of assumed -/
+theorem later_behaviour_equal_reachable_gov {s0 : State} (hx : IdxInv s0) (hq : QInv s0) (hsi : SiInv s0 ∧ IdInv s0)
+    (hg : GovInv s0) (before : List Op) {s' : State} {frm to : Addr} {sigOk : Bool}
+    (h : migrate cfg (run cfg s0 before) frm to sigOk = .ok s') (env : MigEnvNoGov (run cfg s0 before) frm to)
+    (later : List Op) (hl : ∀ op ∈ later, isMigrate op = false) :
+    Sim frm to (run cfg (bankExecute cfg (run cfg s0 before) to frm) later) (run cfg s' (later.map (swOp frm to))) ∧
+    trace cfg (bankExecute cfg (run cfg s0 before) to frm) later = trace cfg s' (later.map (swOp frm to)) := by
+  have hc := no_deposit_or_vote_of_migrated hg before h
+  exact later_behaviour_equal_reachable hx hq hsi before h
+    ⟨env.modFix, env.wd_frm, env.wd_to, env.wd_val, hc.1, hc.2.1, env.vest_frm, env.vest_to⟩ later hl
+
+
+/-! ## the source of an accepted migration is never a module pool -/
+
+/-- no operation changes which accounts have a usable key -/
+theorem hasKey_step (s : State) (op : Op) : (step cfg s op).1.hasKey = s.hasKey := by
+  have keep : ∀ (o : Option State), (∀ s', o = some s' → keyOf s' = keyOf s) → (ofOpt s o).1.hasKey = s.hasKey := by
+    intro o ho
+    cases o with
+    | none => rfl
+    | some s' => exact ho s' rfl
+  cases op with
+  | send x y d n =>
+    simp only [step]
+    apply keep
+    intro s' hs
+    cases hb : sendUnlocked s.bal (lockedOf s x d) x y d n <;> simp [hb] at hs
+    subst hs; rfl
+  | mint x d n => rfl
+  | delegate d v amt rw => exact keep _ (fun s' hs => delegate_key hs)
+  | undelegate d v amt rw => exact keep _ (fun s' hs => undelegate_key hs)
+  | redelegate d x y amt r1 r2 => exact keep _ (fun s' hs => redelegate_key hs)
+  | withdraw d v rw => exact keep _ (fun s' hs => withdraw_key hs)
+  | setWithdraw d w => rfl
+  | submit x dep => exact keep _ (fun s' hs => submit_key hs)
+  | deposit x id amt => exact keep _ (fun s' hs => deposit_key hs)
+  | vote x id => exact keep _ (fun s' hs => vote_key hs)
+  | block dt => exact endBlock_key s dt
+  | setPeriods dp vp => rfl
+  | setUnbond n => rfl
+  | migrate f t sg =>
+    simp only [step]
+    cases hm : migrate cfg s f t sg with
+    | error e => rfl
+    | ok s' =>
+      obtain ⟨_, _, _, _, _, _, _, rfl⟩ := migrate_ok_inv hm
+      exact migrated_key cfg s f t
+
+theorem hasKey_run (s : State) (ops : List Op) : (run cfg s ops).hasKey = s.hasKey := by
+  induction ops generalizing s with
+  | nil => rfl
+  | cons op ops ih => exact (ih _).trans (hasKey_step s op)
+
+/-- what remains to be assumed about the pair once module pools are known to have no key: the TARGET is not a module
+pool, and no delegator-withdraw-address setting or vesting schedule mentions the source or the target -/
+structure MigEnvMin (s : State) (frm to : Addr) : Prop where
+  to_pool : to ≠ bondedPool ∧ to ≠ notBondedPool ∧ to ≠ govMod
+  wd_frm : get s.wdAddr frm = none
+  wd_to : get s.wdAddr to = none
+  wd_val : ∀ a w, get s.wdAddr a = some w → w ≠ frm ∧ w ≠ to
+  vest_frm : get s.vest frm = none
+  vest_to : get s.vest to = none
+
+/-- **later_behaviour_equal for every reachable state, the source's side of `ModFix` proved**: if no module pool has a
+key in the initial state (the pools are module accounts: they never have one), then after ANY history the source of an
+accepted migration is not a module pool — `checkMigrateFrom` demands a key and no operation hands one out — and the
+simulation of `later_behaviour_equal_reachable_gov` holds under `MigEnvMin` -/
+theorem later_behaviour_equal_reachable_min {s0 : State} (hx : IdxInv s0) (hq : QInv s0) (hsi : SiInv s0 ∧ IdInv s0)
+    (hg : GovInv s0) (hk : bondedPool ∉ s0.hasKey ∧ notBondedPool ∉ s0.hasKey ∧ govMod ∉ s0.hasKey)
+    (before : List Op) {s' : State} {frm to : Addr} {sigOk : Bool}
+    (h : migrate cfg (run cfg s0 before) frm to sigOk = .ok s') (env : MigEnvMin (run cfg s0 before) frm to)
+    (later : List Op) (hl : ∀ op ∈ later, isMigrate op = false) :
+    Sim frm to (run cfg (bankExecute cfg (run cfg s0 before) to frm) later) (run cfg s' (later.map (swOp frm to))) ∧
+    trace cfg (bankExecute cfg (run cfg s0 before) to frm) later = trace cfg s' (later.map (swOp frm to)) := by
+  have hkey := (migrate_ok_inv h).2.2.2.2.1
+  rw [hasKey_run] at hkey
+  have hmem : frm ∈ s0.hasKey := List.contains_iff_mem.mp hkey
+  have f1 : frm ≠ bondedPool := fun e => hk.1 (e ▸ hmem)
+  have f2 : frm ≠ notBondedPool := fun e => hk.2.1 (e ▸ hmem)
+  have f3 : frm ≠ govMod := fun e => hk.2.2 (e ▸ hmem)
+  exact later_behaviour_equal_reachable_gov hx hq hsi hg before h
+    ⟨⟨sw_fix frm to _ f1.symm env.to_pool.1.symm, sw_fix frm to _ f2.symm env.to_pool.2.1.symm,
+      sw_fix frm to _ f3.symm env.to_pool.2.2.symm⟩, env.wd_frm, env.wd_to, env.wd_val, env.vest_frm, env.vest_to⟩ later hl
+
+
 /-! ## non-vacuity -/
 
 /-- a portfolio: balances in two denoms, delegations to two validators, an unbonding delegation sharing its completion
@@ -1358,6 +1704,56 @@ example : IdxInv exBase ∧ QInv exBase ∧ (SiInv exBase ∧ IdInv exBase) ∧
     rw [this] at hp; cases hp
   · have : (run cfg exBase exBefore).votes = [] := rfl
     rw [this] at hp; cases hp
+
+/-! ### other readings of the message-server program (what `handler_program_as_modelled` excludes) -/
+
+/-- the order of the two loops matters: with `execute-all` before `validate-all` the staking check would meet the
+delegations it has just moved under the target and refuse every source that holds one -/
+example : (∃ s', migrateProg cfg Gen.C14.handlerOrder Gen.C14.migrateHandlers exState 1 11 true = .ok s') ∧
+    migrateProg cfg ["check-record-from", "check-record-to", "check-from-account", "execute-all", "validate-all", "set-record"]
+      Gen.C14.migrateHandlers exState 1 11 true = .error .toStaking :=
+  ⟨⟨_, rfl⟩, rfl⟩
+
+/-- and so does the wiring: without the gov handler among the registered ones the proposer of a proposal still in its
+deposit period migrates -/
+example : migrateProg cfg Gen.C14.handlerOrder Gen.C14.migrateHandlers exState 2 12 true = .error .gov ∧
+    ∃ s', migrateProg cfg Gen.C14.handlerOrder ["NewBankMigrate", "NewDistrStakingMigrate"] exState 2 12 true = .ok s' :=
+  ⟨rfl, _, rfl⟩
+
+/-! ### non-vacuity of the gov invariant theorems -/
+
+/-- a state without staking records and without proposals: one validator, two funded users with key, funded pools -/
+def exBaseG : State :=
+  { vals := [100], hasKey := [1, 2], valTok := [(100, 1000)], period := [(100, 2)],
+    bal := [((1, 0), 5000), ((2, 0), 5000), ((bondedPool, 0), 1000), ((notBondedPool, 0), 5)] }
+
+/-- user 1 delegates and undelegates, user 2 submits a proposal below the minimum deposit, user 1 deposits on it -/
+def exBeforeG : List Op := [.delegate 1 100 90 0, .undelegate 1 100 10 0, .submit 2 100, .deposit 1 1 50, .block 5]
+
+/-- while the proposal is in its deposit period user 1 is refused (hypotheses of `refused_while_proposal_status_open`:
+the invariant holds in `exBaseG`, the deposit record exists); the deposit period ends unfunded at time 200, the end
+blocker of the first block at or after it refunds user 1 and deletes the proposal; then the migration is accepted, no
+deposit record is left, and all hypotheses of `later_behaviour_equal_reachable_gov` hold together -/
+example : GovInv exBaseG ∧
+    (get (run cfg exBaseG exBeforeG).deposits (1, 1)).isSome = true ∧
+    migrate cfg (run cfg exBaseG exBeforeG) 1 11 true = .error .gov ∧
+    (∃ s', migrate cfg (run cfg exBaseG (exBeforeG ++ [.block 200, .block 1])) 1 11 true = .ok s' ∧ s'.deposits = [] ∧
+      balOf s'.bal 11 0 = 4910) ∧
+    IdxInv exBaseG ∧ QInv exBaseG ∧ (SiInv exBaseG ∧ IdInv exBaseG) ∧
+    MigEnvNoGov (run cfg exBaseG (exBeforeG ++ [.block 200, .block 1])) 1 11 := by
+  refine ⟨govInv_base exBaseG rfl rfl rfl, by decide, rfl, ⟨_, rfl, by decide, by decide⟩,
+    idxInv_base exBaseG rfl rfl rfl rfl rfl rfl rfl, qInv_base exBaseG rfl rfl, siIdInv_base exBaseG rfl rfl rfl rfl,
+    ⟨⟨by decide, by decide, by decide⟩, rfl, rfl, fun a w h => ?_, rfl, rfl⟩⟩
+  have : (run cfg exBaseG (exBeforeG ++ [.block 200, .block 1])).wdAddr = [] := rfl
+  rw [this, get_nil] at h; cases h
+
+/-- the hypotheses of `later_behaviour_equal_reachable_min` hold together in the same example: no pool has a key in
+`exBaseG`, and `MigEnvMin` holds in the state in which the migration is accepted -/
+example : (bondedPool ∉ exBaseG.hasKey ∧ notBondedPool ∉ exBaseG.hasKey ∧ govMod ∉ exBaseG.hasKey) ∧
+    MigEnvMin (run cfg exBaseG (exBeforeG ++ [.block 200, .block 1])) 1 11 := by
+  refine ⟨by decide, ⟨by decide, rfl, rfl, fun a w h => ?_, rfl, rfl⟩⟩
+  have : (run cfg exBaseG (exBeforeG ++ [.block 200, .block 1])).wdAddr = [] := rfl
+  rw [this, get_nil] at h; cases h
 
 /-! ### non-vacuity of later_behaviour_equal -/
 
